@@ -1,8 +1,8 @@
 #!/bin/sh
-# usage: confirm_seed.sh C12 1   -- confirm a seeded change in its scratch worktree /tmp/seed/<P> and store it
+# usage: confirm_seed.sh C12 1 [3]   (third arg: index to store it under; default = second) -- confirm a seeded change in its scratch worktree /tmp/seed/<P> and store it
 # Checks: patch applies; pinned suite still passes with it; demo fails with it and passes without it.
-P=$1; K=$2
-WT=/tmp/seed/$P; OUT=/tmp/seed/$P-out/$K; DST=/verif/seeded/$P-$K
+P=$1; K=$2; DK=${3:-$K}
+WT=/tmp/seed/$P; OUT=/tmp/seed/$P-out/$K; DST=/verif/seeded/$P-$DK
 cd $WT || exit 2
 git checkout -q -- . 
 if ! ls aiokafka/record/_crecords/*.so >/dev/null 2>&1; then
@@ -18,14 +18,14 @@ SUITE=$(/venv/bin/python -m pytest -q -p no:cacheprovider --timeout=900 2>&1 | t
 run_demo >/tmp/seed/$P-$K.demo_mut.log 2>&1; MUT=$?
 git checkout -q -- .
 if git -C $WT status --short | grep -q '\.pyx'; then :; fi
-echo "$P-$K suite='$SUITE' demo_clean_rc=$CLEAN demo_mutated_rc=$MUT"
+echo "$P-$DK suite='$SUITE' demo_clean_rc=$CLEAN demo_mutated_rc=$MUT"
 case "$SUITE" in *"749 passed"*) ;; *) echo "REJECT: suite changed"; exit 1;; esac
 [ $CLEAN -eq 0 ] && [ $MUT -ne 0 ] || { echo "REJECT: demo does not discriminate"; exit 1; }
 mkdir -p $DST && cp $OUT/patch.diff $DST/ && cp $DEMO $DST/ && cp $OUT/notes.md $DST/ 2>/dev/null
-python3 - "$P" "$K" "$SUITE" "$CLEAN" "$MUT" <<'PY'
+python3 - "$P" "$K" "$SUITE" "$CLEAN" "$MUT" "$DK" <<'PY'
 import json,sys
-P,K,suite,clean,mut=sys.argv[1:]
+P,K,suite,clean,mut,DK=sys.argv[1:]
 notes=open(f"/tmp/seed/{P}-out/{K}/notes.md").read() if __import__('os').path.exists(f"/tmp/seed/{P}-out/{K}/notes.md") else ""
-json.dump({"property":P,"id":f"{P}-{K}","needs_to_manifest":"see notes.md","confirmed":{"pinned_suite_with_patch":suite,"demo_rc_unchanged_tree":int(clean),"demo_rc_with_patch":int(mut),"how":"tools/confirm_seed.sh in a scratch worktree under /tmp/seed (compiled extensions built in place)"},"detected_by":"(filled in after running the checks)","notes":notes}, open(f"/verif/seeded/{P}-{K}/meta.json","w"), indent=1)
+json.dump({"property":P,"id":f"{P}-{DK}","needs_to_manifest":"see notes.md","confirmed":{"pinned_suite_with_patch":suite,"demo_rc_unchanged_tree":int(clean),"demo_rc_with_patch":int(mut),"how":"tools/confirm_seed.sh in a scratch worktree under /tmp/seed (compiled extensions built in place)"},"detected_by":"(filled in after running the checks)","notes":notes}, open(f"/verif/seeded/{P}-{DK}/meta.json","w"), indent=1)
 PY
 echo "KEPT $DST"
